@@ -17,6 +17,8 @@ def run_one(ctx, prop, plan, seed, decisions=None):
     ctx.count("driver_steps", res["steps"])
     ctx.count("launch_events", sum(1 for e in res["events"] if e[0] == "launch"))
     ctx.count("exit_events", sum(1 for e in res["events"] if e[0] == "exit"))
+    ctx.count("generate_only_runs", sum(1 for e in res["events"] if e[0] == "generate-only-run"))
+    ctx.count("generate_only_runs_over_a_backup", sum(1 for e in res["events"] if e[0] == "generate-only-run" and e[1] > 0))
     ctx.count("blocks_left_normally_with_failure", sum(1 for e in res["events"] if e[0] == "block-left-normally" and e[1] == "FailedExperiment"))
     ctx.count("blocks_left_normally_without_failure", sum(1 for e in res["events"] if e[0] == "block-left-normally" and e[1] == "no failure"))
     ctx.count("dependency_failed_under_reattached_job", sum(1 for e in res["events"] if e[0] == "dependency-failed-under-reattached-job"))
